@@ -158,6 +158,9 @@ func runC12(p *load.Program, r *oblig.Report) {
 	c12Refresher(p, r)
 	c12PoolUpdateOrder(p, r)
 	c12SplitGroups(p, r)
+	c12UpdatePublishes(p, r)
+	// ListOffsets is routed by the leader of its first partition: Split must leave one partition per sub-request (C19.R3)
+	shareRules(r, "C12", "C12.R11 list-offsets requests are split per partition leader", func(sub *oblig.Report) { c19SplitMerge(p, sub) })
 	c12LegacyNegotiate(p, r, "C12.R2 version-selection table")
 }
 
@@ -1137,4 +1140,55 @@ func c12SplitGroups(p *load.Program, r *oblig.Report) {
 	})
 	r.Check(n > 0 && len(bad) == 0, rule, "describegroups.Request.Split → each sub-request names exactly the group of its iteration", p.Pos(fn.Pos()),
 		"for _, group := range r.Groups { &Request{Groups: []string{group}, …} }", strings.Join(bad, "; "))
+}
+
+// c12UpdatePublishes: R10 — every successful metadata refresh replaces the cached metadata and layout (leaders and
+// the controller move inside an unchanged set of brokers): on the err == nil path of connPool.update no exit is
+// reachable without storing the new metadata into the state and scheduling setState.
+func c12UpdatePublishes(p *load.Program, r *oblig.Report) {
+	const rule = "C12.R10 every successful refresh is published"
+	upd := p.Func("", "(*connPool).update")
+	setState := p.Func("", "(*connPool).setState")
+	if upd == nil || setState == nil {
+		r.Lost(rule, "kafka.(*connPool).update / setState")
+		return
+	}
+	errParam := upd.Params[len(upd.Params)-1]
+	var okBlk *ssa.BasicBlock
+	for _, b := range an.Blocks(upd) {
+		_, ci := an.IfCond(b)
+		if e := ci.Edge(token.EQL); e >= 0 && an.IsNilConst(ci.Y) && ci.X == ssa.Value(errParam) {
+			okBlk = b.Succs[e]
+		}
+	}
+	if okBlk == nil {
+		r.Lost(rule, "test of the err parameter in kafka.(*connPool).update")
+		return
+	}
+	metaParam := upd.Params[2]
+	for _, what := range []struct {
+		name string
+		pass func(ssa.Instruction) bool
+	}{
+		{"stores the new metadata into the state", func(i ssa.Instruction) bool {
+			st, ok := fieldStoreIs(i, "connPoolState", "metadata")
+			return ok && st.Val == ssa.Value(metaParam)
+		}},
+		{"schedules setState(state)", func(i ssa.Instruction) bool {
+			switch x := i.(type) {
+			case *ssa.Defer:
+				return an.StaticCalleeIs(&x.Call, setState)
+			case *ssa.Call:
+				return an.StaticCalleeIs(&x.Call, setState)
+			}
+			return false
+		}},
+	} {
+		ok, bad := an.MustPass(upd, an.Point{B: okBlk, Idx: -1}, what.pass, nil)
+		where := ""
+		if bad != nil {
+			where = "the exit at " + p.Pos(bad.Pos()) + " is reached without it"
+		}
+		r.Check(ok, rule, "kafka.(*connPool).update "+what.name+" on every path of a successful refresh", p.Pos(upd.Pos()), "state.metadata, state.layout = metadata, layout; defer p.setState(state)", where)
+	}
 }
